@@ -4,7 +4,7 @@
    Scope: everything AFTER the third-party wire decoders (jx, protobuf, pprof, snappy, gzip, multipart):
    those are exercised by the harness, their accept/reject bit is an input of the model. *)
 From Coq Require Import List String ZArith NArith Bool Permutation.
-From Qryn Require Import model.IngestRobust proofs.IngestRobustProofs model.IngestPipe proofs.IngestPipeProofs model.IngestFraming proofs.IngestFramingProofs model.IngestShared proofs.IngestSharedProofs gen.GenGoroutinesWriter.
+From Qryn Require Import model.IngestRobust proofs.IngestRobustProofs model.IngestPipe proofs.IngestPipeProofs model.IngestFraming proofs.IngestFramingProofs model.IngestShared proofs.IngestSharedProofs model.IngestConn proofs.IngestConnProofs gen.GenGoroutinesWriter.
 Import ListNotations.
 
 (* ---- goroutines -------------------------------------------------------------------------- *)
@@ -1078,3 +1078,55 @@ Proof. vm_compute. reflexivity. Qed.
 Theorem multipart_form_in_source : strs_eqb' gen_mform_source mform_source_model = true.
 Proof. vm_compute. reflexivity. Qed.
 Print Assumptions multipart_form_in_source.
+
+(* ---- round 6: the connection of an insert service misbehaves with requests in flight (model/IngestConn.v) -------------------------- *)
+
+(* InsertServiceV2.fetchLoopIteration, regenerated statement by statement, is the modelled program once the plain statements are
+   left out: connect step (error path: return), swapBuffers, copy of the portion's promises, releaseWaiting, Do, releaseWaiting(err),
+   close on error -- IN THIS ORDER.  Seeded C05-f (swapBuffers before the connect step) falsifies it. *)
+Theorem fetch_loop_matches_source : fetch_loop_ok gen_fetch_loop = true.
+Proof. vm_compute. reflexivity. Qed.
+Print Assumptions fetch_loop_matches_source.
+
+Theorem watchdog_ping_matches_source : ping_ok gen_ping_prog = true.
+Proof. vm_compute. reflexivity. Qed.
+Print Assumptions watchdog_ping_matches_source.
+
+(* Run's select (watchdog -> ping, ctx -> return, insertCtx -> fetchLoopIteration) and the only two functions that renew insertCtx *)
+Theorem run_loop_in_source : gen_run_cases = run_cases_model /\ gen_insert_ctx_writers = insert_ctx_writers_model.
+Proof. vm_compute. split; reflexivity. Qed.
+Print Assumptions run_loop_in_source.
+
+(* "never leaves a goroutine blocked forever": for EVERY interleaving of requests, requests answered at once, timer / PlanFlush
+   events, iterations of the Run loop with ANY outcome of the dial and of the INSERT, and watchdog ticks with any outcome of the ping,
+   no iteration returns with a promise it took out of svc.results and did not complete, the Run goroutine does not dereference a nil
+   client, and every promise ever handed out is either still in svc.results or completed -- for every program that passes the check,
+   hence (fetch_loop_matches_source, watchdog_ping_matches_source) for the regenerated one. *)
+Theorem no_promise_is_ever_dropped : forall p pp, fetch_loop_ok p = true -> ping_ok pp = true -> forall evs,
+  let st := crun p pp evs cs_init in
+  cs_crash st = false /\ cs_lost st = [] /\ forall id, In id (requested evs) -> accounted st id = true.
+Proof. exact no_promise_dropped. Qed.
+Print Assumptions no_promise_is_ever_dropped.
+
+(* a refused dial is a stutter: nothing is taken, the insert context stays done, so Run calls the iteration again (it dials again) *)
+Theorem refused_dial_keeps_the_waiting_requests : forall p, fetch_loop_ok p = true -> forall e st,
+  cs_client st = false -> dial_ok e = false -> fst (run_iter p e st) = st.
+Proof. exact refused_dial_stutters. Qed.
+Print Assumptions refused_dial_keeps_the_waiting_requests.
+
+(* "returns an HTTP response in bounded time", under C01's fairness assumption (the database refuses finitely often): however many
+   iterations meet a refused dial, the first accepted one answers EVERY waiting request with the verdict of its INSERT *)
+Theorem waiting_requests_are_answered_by_the_first_accepted_dial : forall p pp, fetch_loop_ok p = true -> forall envs e st,
+  cs_crash st = false -> cs_due st = true -> cs_client st = false ->
+  Forall (fun x => dial_ok x = false) envs -> dial_ok e = true ->
+  let st' := crun p pp (map ETick envs ++ [ETick e]) st in
+  cs_waiting st' = [] /\ forall id, In id (cs_waiting st) -> In (id, do_ok e) (cs_done st').
+Proof. exact waiting_requests_answered_by_the_first_accepted_dial. Qed.
+Print Assumptions waiting_requests_are_answered_by_the_first_accepted_dial.
+
+(* the seeded order (C05-f) inside the model: request, refused dial -> the promise is lost, and no later accepted dial answers it *)
+Theorem swap_before_connect_refuted :
+  let st := crun fli_swapped ping_core c05f_trace cs_init in
+  cs_lost st = [1%N] /\ accounted st 1%N = false /\ fetch_loop_ok fli_swapped = false.
+Proof. exact swap_before_connect_drops_promises. Qed.
+Print Assumptions swap_before_connect_refuted.
